@@ -50,8 +50,10 @@ def _grid_with_defaults():
 
 
 DEFAULTS = {"boundary": {"AX": "periodic", "AY": "extend"}, "fill_value": {"AX": 1.5, "AY": 2.5}}
+OMIT = object()  # the caller does not mention the argument at all: the default of pad()'s own signature applies
 SPELLINGS = {
     "boundary": {
+        "not given": (OMIT, {}),
         "None": (None, {}),
         "scalar": ("fill", {"AX": "fill", "AY": "fill"}),
         "empty mapping": ({}, {}),
@@ -60,6 +62,7 @@ SPELLINGS = {
         "partial mapping (AY)": ({Sym("AY"): "fill"}, {"AY": "fill"}),
     },
     "fill_value": {
+        "not given": (OMIT, {}),
         "None": (None, {}),
         "scalar": (9.0, {"AX": 9.0, "AY": 9.0}),
         "scalar zero": (0, {"AX": 0, "AY": 0}),
@@ -101,7 +104,9 @@ def run_pad(P, boundary, fill_value, widths, data=None, grid=None, other=None):
     def make():
         g = grid() if grid is not None else _grid_with_defaults()
         d = data() if data is not None else make_da("da", [Sym("t"), dimsym("AX", "center"), dimsym("AY", "center")])
-        return dict(data=d, grid=g, boundary_width=copy.deepcopy(widths), boundary=copy.deepcopy(boundary), fill_value=copy.deepcopy(fill_value), other_component=other)
+        a = dict(data=d, grid=g, boundary_width=copy.deepcopy(widths), boundary=boundary if boundary is OMIT else copy.deepcopy(boundary),
+                 fill_value=fill_value if fill_value is OMIT else copy.deepcopy(fill_value), other_component=other)
+        return {k: v for k, v in a.items() if v is not OMIT}
 
     calls.clear()
     outs = []
